@@ -181,6 +181,12 @@ def random_case(rng, tier):
         # launcher's continue task does), saved right after construction or at its first rest
         from simkit import persist
         opts['via_bundle'] = {'medium': rng.choice(persist.MEDIA), 'after': rng.choice(['created', 'rest', 'rest', 'terminated'])}
+    if flavour in ('quiescent', 'timed') and rng.random() < 0.12:
+        # one step starts a child with self.launch()
+        program['children'] = [{'kind': 'process', 'inputs': None,
+                                'steps': [{'async': False, 'awaits': [], 'effects': [[{'e': 'out', 'k': 'c', 'v': 1}]],
+                                           'ret': {'t': 'value', 'v': 'child'}}]}]
+        rng.choice(program['steps'])['effects'][0].append({'e': 'launch', 'child': 0})
     case = {'program': program, 'schedule': schedule, 'opts': opts, 'flavour': flavour}
     if case_fault:
         case['fault'] = case_fault
@@ -540,13 +546,24 @@ def _oracle_single(case, engine, proc, communicator, data, result, late_reply, c
     # (a process recreated from a checkpoint enters no state when it is loaded: its first announcement is its next transition)
     expected = ([] if case['opts'].get('via_bundle') else ['state_changed.None.created']) \
         + [f'state_changed.{frm}.{to}' for frm, to in engine.transitions]
-    sent = [(s, sender) for s, sender, _ in data['sent'] if str(s).startswith('state_changed')]
+    sent_all = [(s, sender) for s, sender, _ in data['sent'] if str(s).startswith('state_changed')]
+    # children started with Process.launch share the communicator: they announce themselves under their own pids and can be
+    # reached like any other process
+    # (children of the process that only existed to be checkpointed lived in its own loop, without a communicator)
+    children = [child for child in engine.world.children if child.loop is engine.loop]
+    child_pids = [child.pid for child in engine.world.children]
+    for child in children:
+        result.counters['probe:launched_child'] += 1
+        if not any(sender == child.pid for _, sender in sent_all):
+            result.violate('broadcast_sequence', 'child_silent', f'a child started with launch() never announced a state '
+                                                                 f'change (its pid {child.pid!r} sent nothing)')
+    sent = [(s, sender) for s, sender in sent_all if sender not in child_pids]
     if [s for s, _ in sent] != expected:
         result.violate('broadcast_sequence', 'sent', f'announced {[s for s, _ in sent]}, completed transitions {expected}')
     elif any(sender != pid for _, sender in sent):
         result.violate('broadcast_sequence', 'sender', f'state_changed broadcast sent by {set(s for _, s in sent)}, pid is {pid!r}')
     seen = [(s, sender) for s, sender in data['seen'] if str(s).startswith('state_changed')]
-    if seen != sent:
+    if seen != sent_all:
         result.violate('broadcast_sequence', 'subscriber', f'the independent subscriber received {seen}, sent were {sent}')
 
     # -- after termination ----------------------------------------------------------------------------------
